@@ -16,6 +16,11 @@ Line protocol of C19.
   c19.want <int> <doctree> → hex of squeeze (wantOf m doc) — the text the property asks for — or "mixed" when
                              some p has a block-level child and non-blank text of its own (noMixed fails)
   c19.blk <int> <doctree> →  the specification `blocksOf` (tables whole, item kinds) of the clamped mode
+  c19.deeper <limit> <doctree> → 1 | 0    treeDeeperThan(doc, limit), any limit ≥ 0 (hook VerifTreeDeeperThan)
+  c19.limit               →  maxTreeDepth (hook VerifMaxTreeDepth)
+
+c19.doc, c19.seq and c19.ext answer `refused` when OpenReader returns its depth error (tree deeper than
+maxTreeDepth); c19.epub leaves such a chapter out.
 
 tree  ::= 'T' hex '.'  |  'E' hex { '@' hex '=' hex } '(' tree* ')'  |  'O' '(' tree* ')'
 hex is the UTF-8 bytes of the string, two lower-case digits per byte (empty allowed).
@@ -226,16 +231,25 @@ def handleApi (op : String) (args : List String) : String :=
   | "c19.doc", [m, tree] =>
     match m.toInt?, parseTree tree with
     | some m, some doc =>
-      s!"T={hexS (textWithOptions m doc)} M={hexS (markdownWithOptions m doc)} D={dumpDocM (documentWithOptions m doc)}"
+      match openText m doc, openMarkdown m doc, openDocument m doc with
+      | some t, some md, some d => s!"T={hexS t} M={hexS md} D={dumpDocM d}"
+      | none, none, none => "refused"
+      | _, _, _ => "inconsistent"
     | _, _ => "bad-op"
   | "c19.seq", [tree, calls] =>
     match parseTree tree, parseAll parseCall (calls.splitOn ",") with
-    | some doc, some cs => " ".intercalate ((runCalls (openReader doc) cs).map digestOut)
+    | some doc, some cs =>
+      match runCallsE doc cs with
+      | some outs => " ".intercalate (outs.map digestOut)
+      | none => "refused"
     | _, _ => "bad-op"
   | "c19.ext", [tree] =>
     match parseTree tree with
     | some doc =>
-      s!"T={hexS (extractorText doc)} M={hexS (extractorMarkdown doc)} D={dumpDocM (extractorDocument doc)}"
+      match extractorTextE doc, extractorMarkdownE doc, extractorDocumentE doc with
+      | some t, some md, some d => s!"T={hexS t} M={hexS md} D={dumpDocM d}"
+      | none, none, none => "refused"
+      | _, _, _ => "inconsistent"
     | none => "bad-op"
   | "c19.epub", kind :: m :: trees =>
     match m.toInt?, parseAll parseTree trees with
@@ -244,6 +258,11 @@ def handleApi (op : String) (args : List String) : String :=
       else if kind == "m" then hexS (epubMarkdown m docs)
       else "bad-op"
     | _, _ => "bad-op"
+  | "c19.deeper", [limit, tree] =>
+    match limit.toNat?, parseTree tree with
+    | some l, some doc => if treeDeeperThan doc l then "1" else "0"
+    | _, _ => "bad-op"
+  | "c19.limit", [] => toString maxTreeDepth
   | "c19.blk", [m, tree] =>
     match m.toInt?, parseTree tree with
     | some m, some doc =>
